@@ -8,6 +8,7 @@ package props
 //     nobody when less than 10 % of snapshot shares attested.
 
 import (
+	"crypto/ecdsa"
 	"encoding/hex"
 	"fmt"
 	"math/big"
@@ -23,6 +24,7 @@ import (
 	evmtypes "github.com/palomachain/paloma/v2/x/evm/types"
 	schedtypes "github.com/palomachain/paloma/v2/x/scheduler/types"
 	skywaytypes "github.com/palomachain/paloma/v2/x/skyway/types"
+	vtypes "github.com/palomachain/paloma/v2/x/valset/types"
 
 	"verif/harness/chain"
 	"verif/harness/evid"
@@ -78,6 +80,8 @@ func TestC13_EvidenceOnlyForNeverIssuedCheckpoints(t *testing.T) {
 		var confs []c13Conf
 		var log []string
 		replayAfterElection, forged, jailedByForgery := 0, 0, 0
+		retired := map[int][]*ecdsa.PrivateKey{} // remote keys a validator had registered earlier and replaced since
+		rotations, forgedWithRetired := 0, 0
 		skyNonce := uint64(0)
 
 		batches := func() []skywaytypes.InternalOutgoingTxBatch {
@@ -243,11 +247,18 @@ func TestC13_EvidenceOnlyForNeverIssuedCheckpoints(t *testing.T) {
 			"forgedEvidence": func(t *rapid.T) {
 				bs := batches()
 				lv := live()
-				if len(bs) == 0 || len(lv) < 3 || forged >= 1 {
+				if len(bs) == 0 || len(lv) < 3 || forged >= 3 {
 					t.Skip("not now")
 				}
 				b := bs[0].ToExternal()
 				v := lv[rapid.IntRange(0, len(lv)-1).Draw(t, "val")]
+				// prefer a validator that has replaced its key, if there is one
+				for _, x := range lv {
+					if len(retired[x.Index]) > 0 && rapid.IntRange(0, 3).Draw(t, "preferRotated") > 0 {
+						v = x
+						break
+					}
+				}
 				switch rapid.IntRange(0, 2).Draw(t, "alter") {
 				case 0:
 					b.Transactions[0].Erc20Token.Amount = b.Transactions[0].Erc20Token.Amount.Add(sdkmath.NewInt(1))
@@ -264,7 +275,30 @@ func TestC13_EvidenceOnlyForNeverIssuedCheckpoints(t *testing.T) {
 					t.Skip("altered batch happens to be issued")
 				}
 				forged++
-				submitEvidence(t, mallory, b, chain.EthSign(v.EthKeys[c13Chain], cp), fmt.Sprintf("forged batch signed with v%d's key", v.Index))
+				key, which := v.EthKeys[c13Chain], "registered"
+				if rk := retired[v.Index]; len(rk) > 0 && rapid.IntRange(0, 3).Draw(t, "retiredKey") > 0 {
+					// a key the validator has replaced (e.g. because it leaked) is nobody's registered key any more
+					key, which = rk[rapid.IntRange(0, len(rk)-1).Draw(t, "which")], "retired"
+					forgedWithRetired++
+				}
+				submitEvidence(t, mallory, b, chain.EthSign(key, cp), fmt.Sprintf("forged batch signed with v%d's %s key", v.Index, which))
+			},
+			// a validator replaces its remote account (new key) between two snapshots
+			"rotateKey": func(t *rapid.T) {
+				lv := live()
+				if len(lv) == 0 || rotations >= 2 {
+					t.Skip("not now")
+				}
+				v := lv[rapid.IntRange(0, len(lv)-1).Draw(t, "val")]
+				rotations++
+				nk := chain.EthKeyFor(fmt.Sprintf("%s/rotated/%d/%d", salt, v.Index, rotations))
+				ea := chain.EthAddr(nk)
+				oks := block(t, c.MustSign(v.Actor, &vtypes.MsgAddExternalChainInfoForValidator{Metadata: chain.MD(v.Actor), ChainInfos: []*vtypes.ExternalChainInfo{{ChainType: "evm", ChainReferenceID: c13Chain, Address: ea.Hex(), Pubkey: ea.Bytes()}}}))
+				if oks[0] {
+					retired[v.Index] = append(retired[v.Index], v.EthKeys[c13Chain])
+					v.EthKeys[c13Chain] = nk
+				}
+				log = append(log, fmt.Sprintf("rotateKey(v%d)=%v", v.Index, oks[0]))
 			},
 			"timeoutAndRebuild": func(t *rapid.T) {
 				if len(batches()) == 0 || rapid.IntRange(0, 3).Draw(t, "really?") != 0 {
@@ -299,6 +333,9 @@ func TestC13_EvidenceOnlyForNeverIssuedCheckpoints(t *testing.T) {
 		}
 		if forged > 0 {
 			labels = append(labels, "forged")
+		}
+		if forgedWithRetired > 0 {
+			labels = append(labels, "forgedWithRetiredKey")
 		}
 		if jailedByForgery > 0 {
 			labels = append(labels, "forgeryJailed")
